@@ -45,9 +45,11 @@ KEYS_ORACLE = {
     "AnyOfQubits": (["filter|retain", "any|is_disjoint", "contains|is_disjoint"], ["all", "is_subset", "=="]),
     "ExactQubits": (["filter|retain", "==|eq"], ["any", "is_disjoint"]),
     "Specific": (["get_key_value|get"], []),
-    "And": (["reduce|fold|intersection|retain", "contains|intersection|retain"], ["flat_map", "union"]),
+    # every operand takes part in the intersection: an adaptor that drops operand results (take_while on "non-empty" drops
+    # exactly the empty operand that should have emptied the result) is forbidden
+    "And": (["reduce|fold|try_fold|intersection|retain", "contains|intersection|retain"], ["flat_map", "union", "take_while", "skip_while", "map_while", "skip", "take", "step_by", "nth", "last", "find"]),
     # a union must evaluate every alternative: an early exit once the accumulated set is empty is an intersection shortcut
-    "Or": (["flat_map|union|extend"], ["reduce", "intersection", "retain", "<early-exit>"]),
+    "Or": (["flat_map|union|extend"], ["reduce", "intersection", "retain", "<early-exit>", "take_while", "skip_while", "map_while", "skip", "take", "step_by", "nth", "last", "find"]),
 }
 
 
@@ -244,7 +246,7 @@ def run(ctx):
             key = "K8|condition-semantics|%s" % name
             res.site(key, True, {"condition": name, "uses": sorted(have & {"any", "all", "==", "contains", "reduce", "flat_map", "filter", "get_key_value", "get", "collect"}), "verdict": "ok" if ok else "VIOLATION"})
             if not ok:
-                res.find(key, "%s:%d" % (sf["file"], arm["ln"]), "FrameMatchCondition::%s is evaluated with %s; the rule needs %s and must not use %s" % (name, sorted(have & {"any", "all", "==", "contains", "reduce", "flat_map", "filter"}), need, forbid), "a frame on qubits {0,1} and a condition on {0}: %s gives the wrong answer" % name)
+                res.find(key, "%s:%d" % (sf["file"], arm["ln"]), "FrameMatchCondition::%s is evaluated with %s; the rule needs %s and must not use %s" % (name, sorted(have & ({"any", "all", "==", "contains", "reduce", "flat_map", "filter"} | set(forbid))), need, forbid), "a frame on qubits {0,1} and a condition on {0}: %s gives the wrong answer" % name)
         if seen != set(KEYS_ORACLE):
             res.find("K8|condition-semantics|missing", gmk.loc(), "condition kinds %s have no arm in get_matching_keys_for_condition" % sorted(set(KEYS_ORACLE) - seen))
         res.count("condition_kinds", len(seen), floor=7)
